@@ -521,6 +521,12 @@ def resolveQ (pf : Prefixes) (term : Str) : Str :=
     | none => term
   else term
 
+/-- `resolve_turtle_term`: only a bare prefixed name is prefix-expanded; an `<iri>` or a "literal" is complete -/
+def resolveTTL (pf : Prefixes) (raw : Str) : Option Str :=
+  (cleanTurtle raw).map fun cleaned =>
+    let t := trim raw
+    if startsWith ['<'] t || startsWith ['"'] t then cleaned else resolveQ pf cleaned
+
 /-- first split of `splitn(2, char::is_whitespace)` -/
 def splitFirstWs : Str → Str → Option (Str × Str)
   | [], _ => none
@@ -548,20 +554,17 @@ def ttlFlush (pf : Prefixes) (sRaw pRaw : Option Str) (objToks : List Str) : Opt
     match split with
     | none => none
     | some (objectPart, anns) =>
-      match cleanTurtle sRaw, cleanTurtle pRaw, cleanTurtle objectPart with
-      | some cs, some cp, some co =>
-        let subject := resolveQ pf cs
-        let predicate := resolveQ pf cp
-        let object := resolveQ pf co
+      match resolveTTL pf sRaw, resolveTTL pf pRaw, resolveTTL pf objectPart with
+      | some subject, some predicate, some object =>
         let main : LQuad :=
           if startsWith ['<', '<'] subject || startsWith ['<', '<'] object then
             ⟨encTerm subject, encTerm predicate, encTerm object, none⟩
           else ⟨.plain subject, .plain predicate, .plain object, none⟩
         let annq : Option (List LQuad) := anns.mapM fun (ap, ao) =>
-          match cleanTurtle ap, cleanTurtle ao with
-          | some cap, some cao =>
+          match resolveTTL pf ap, resolveTTL pf ao with
+          | some rap, some rao =>
             let qt := "<< ".toList ++ subject ++ ' ' :: predicate ++ ' ' :: object ++ " >>".toList
-            some ⟨encTerm qt, encTerm (resolveQ pf cap), encTerm (resolveQ pf cao), none⟩
+            some ⟨encTerm qt, encTerm rap, encTerm rao, none⟩
           | _, _ => none
         annq.map (fun l => main :: l)
       | _, _, _ => none
